@@ -3,6 +3,7 @@ from .. RDkitWrapper.ReactionQuery import ReactionQuery, BondForm, \
     BondIncrease, BondDecrease, BondModify, AtomTypeModify, BondBreak,\
     RadicalIncrease, RadicalDecrease, ChargeIncrease, ChargeDecrease
 from .MolQueryRead import MolQueryReader
+from .. RDkitWrapper.MolQuery import AtomRadical
 from rdkit import Chem
 
 
@@ -293,14 +294,28 @@ class ReactionQueryReader(object):
                                                             charge,
                                                             valence))
 
+    def ReadDeclaredRadicals(self, atom_name, reactant_name, idx_in_query,
+                             reactionquery):
+        # The radical count of a pattern atom is not stored on the RDKit query
+        # atom (which always reports 0) but as an AtomRadical constraint.
+        molquery = reactionquery.reactantquery[reactant_name]
+        for constraint in molquery.atom_constraints.get(idx_in_query, []):
+            if isinstance(constraint, AtomRadical) and not constraint.negate\
+                    and constraint.CN.operator == '=':
+                return constraint.CN.n
+        raise RINGReaderError("RadicalModify: number of radical electrons of",
+                              "atom '" + atom_name + "' is not specified")
+
     def ReadRadicalModify(self, tree, reactionquery):
         assert tree[0][0] == 'AtomLabel'
-        _, idx, _, _, atom = self.ReadAtomLabel(tree[0][1:], reactionquery)
+        atom_name, idx, reactant_name, idx_in_query, atom = \
+            self.ReadAtomLabel(tree[0][1:], reactionquery)
         radical = tree[1]
         if radical < 0:
             raise RINGReaderError("RadicalModify: Number of radical",
                                   "electrons cannot be below 0")
-        self.electronbalance[idx] -= radical - atom.GetNumRadicalElectrons()
+        self.electronbalance[idx] -= radical - self.ReadDeclaredRadicals(
+            atom_name, reactant_name, idx_in_query, reactionquery)
         reactionquery.transformations.append(AtomTypeModify(idx,
                                                             radical,
                                                             0, 0))
